@@ -238,6 +238,235 @@ impl Scenario for CtrWrap {
     }
 }
 
+// ------------------------------------------------------------------ lenwrap
+
+pub struct LenWrap;
+
+trait LObj {
+    fn update_val(&mut self, d: &[u8]);
+    fn update_mut(&mut self, d: &[u8]);
+    fn fork(&self) -> Box<dyn LObj>;
+    fn len(&self) -> u128;
+    fn set_len(&mut self, n: u128);
+    fn finalize_reset(&mut self) -> Vec<u8>;
+    fn finalize(self: Box<Self>) -> Vec<u8>;
+}
+
+macro_rules! lobj {
+    ($w:ident, $ctx:ty) => {
+        struct $w($ctx);
+        impl LObj for $w {
+            fn update_val(&mut self, d: &[u8]) {
+                let old = core::mem::replace(&mut self.0, <$ctx>::new());
+                self.0 = old.update(d);
+            }
+            fn update_mut(&mut self, d: &[u8]) {
+                self.0.update_mut(d)
+            }
+            fn fork(&self) -> Box<dyn LObj> {
+                Box::new($w(self.0.clone()))
+            }
+            fn len(&self) -> u128 {
+                self.0.verif_processed_bytes()
+            }
+            fn set_len(&mut self, n: u128) {
+                self.0.verif_set_processed_bytes(n)
+            }
+            fn finalize_reset(&mut self) -> Vec<u8> {
+                self.0.finalize_reset().to_vec()
+            }
+            fn finalize(self: Box<Self>) -> Vec<u8> {
+                self.0.finalize().to_vec()
+            }
+        }
+    };
+}
+lobj!(LSha1, cryptoxide::hashing::sha1::Context);
+lobj!(LRipemd, cryptoxide::hashing::ripemd160::Context);
+lobj!(LSha224, cryptoxide::hashing::sha2::Context224);
+lobj!(LSha256, cryptoxide::hashing::sha2::Context256);
+lobj!(LSha384, cryptoxide::hashing::sha2::Context384);
+lobj!(LSha512, cryptoxide::hashing::sha2::Context512);
+lobj!(LSha512_224, cryptoxide::hashing::sha2::Context512_224);
+lobj!(LSha512_256, cryptoxide::hashing::sha2::Context512_256);
+
+/// (name, block size, log2 of the domain limit in bytes)
+const L_VARIANTS: &[(&str, usize, u32)] = &[("sha1", 64, 61), ("ripemd160", 64, 61), ("sha224", 64, 61), ("sha256", 64, 61), ("sha384", 128, 125), ("sha512", 128, 125), ("sha512_224", 128, 125), ("sha512_256", 128, 125)];
+
+fn make_l(name: &str) -> Box<dyn LObj> {
+    use cryptoxide::hashing::{ripemd160, sha1, sha2};
+    match name {
+        "sha1" => Box::new(LSha1(sha1::Context::new())),
+        "ripemd160" => Box::new(LRipemd(ripemd160::Context::new())),
+        "sha224" => Box::new(LSha224(sha2::Context224::new())),
+        "sha256" => Box::new(LSha256(sha2::Context256::new())),
+        "sha384" => Box::new(LSha384(sha2::Context384::new())),
+        "sha512" => Box::new(LSha512(sha2::Context512::new())),
+        "sha512_224" => Box::new(LSha512_224(sha2::Context512_224::new())),
+        _ => Box::new(LSha512_256(sha2::Context512_256::new())),
+    }
+}
+
+/// boundaries (log2, in bytes) the length counter and its bit-length encoding have to cross
+const L_BOUNDS: [u32; 8] = [29, 32, 35, 53, 60, 61, 64, 93];
+
+impl Scenario for LenWrap {
+    fn name(&self) -> &'static str {
+        "lenwrap"
+    }
+    fn kinds(&self) -> &'static [&'static str] {
+        &["update", "update_mut", "fork", "finalize_reset"]
+    }
+    fn nontrivial_kind(&self, _k: u8) -> bool {
+        true
+    }
+    fn nontrivial(&self, t: &Trace) -> bool {
+        t.ops.len() >= 2
+    }
+    fn real_vs_stub(&self) -> &'static str {
+        "real: SHA-1, RIPEMD-160 and the six SHA-2 contexts (update, update_mut, clone, finalize, finalize_reset) with the message-length counter preset/observed through hook H4; stub: scheduler/PRNG, length model"
+    }
+    fn cover_rule(&self) -> &'static str {
+        "(variant, boundary 2^k bytes approached, blocks below it at the preset)"
+    }
+    fn generate(&self, rng: &mut Rng, _idx: u64, _tier: Tier) -> Trace {
+        let (name, b, dom) = *rng.pick(L_VARIANTS);
+        let mut t = Trace::new("lenwrap", name);
+        // a boundary inside the algorithm's domain, approached from k blocks below
+        let k = loop {
+            let k = *rng.pick(&L_BOUNDS);
+            if k <= dom {
+                break k;
+            }
+        };
+        t.set_p("boundary_log2", k as u64);
+        t.set_p("blocks_below", rng.range(0, 4));
+        let nops = rng.range(1, 8);
+        let mut handles = 1u8;
+        let mut fill = 0usize;
+        for _ in 0..nops {
+            let r = rng.below(12);
+            if r == 0 && handles < 3 {
+                t.ops.push(Op::new(rng.below(handles as u64) as u8, 2));
+                handles += 1;
+            } else if r == 1 {
+                t.ops.push(Op::new(rng.below(handles as u64) as u8, 3));
+            } else {
+                let len = chunk_len(rng, b, fill, false).min(3 * b);
+                t.ops.push(Op::new(rng.below(handles as u64) as u8, rng.below(2) as u8).len(len).seed(rng.data_seed()).off(rng.below(32) as u8));
+                fill += len;
+            }
+        }
+        t
+    }
+    fn execute(&self, t: &Trace, obs: &mut Obs) -> Result<(), Violation> {
+        let (vi, &(name, b, dom)) = match L_VARIANTS.iter().enumerate().find(|(_, v)| v.0 == t.variant) {
+            Some(x) => x,
+            None => return Ok(()),
+        };
+        let k = (t.p("boundary_log2") as u32).min(dom);
+        let below = t.p("blocks_below").min(8) as u128;
+        // the whole history (<= 8 ops of <= 3 blocks, 3 handles) stays below the domain limit
+        let total_cap: u128 = 40 * b as u128;
+        let mut preset: u128 = (1u128 << k) - below * b as u128;
+        if k == dom {
+            preset = (1u128 << k) - total_cap - below * b as u128;
+            preset -= preset % b as u128;
+        }
+        obs.cov(((vi as u32) << 12) | (k << 4) | below as u32);
+        let first = guarded(|| {
+            let mut o = make_l(name);
+            o.set_len(preset);
+            o
+        })
+        .map_err(|m| Violation::new("unexpected-panic", 0, "context constructed", m, name))?;
+        obs.hit("fault.length_counter_preset");
+        // (object, bytes fed since the preset / last reset, preset in force)
+        let mut hs: Vec<(Box<dyn LObj>, Vec<u8>, u128)> = vec![(first, Vec::new(), preset)];
+        for (i, op) in t.ops.iter().enumerate() {
+            let h = op.h as usize;
+            if h >= hs.len() {
+                continue;
+            }
+            obs.begin_op(i);
+            match op.k {
+                0 | 1 => {
+                    let len = (op.len as usize).min(4 * b);
+                    let a = Aligned::new(op.seed, len, (op.off % 32) as usize);
+                    let hd = &mut hs[h];
+                    let before = hd.2 + hd.1.len() as u128;
+                    let after = before + len as u128;
+                    if (before >> k) != (after >> k) || (before * 8) >> 32 != (after * 8) >> 32 {
+                        obs.hit("probe.length_counter_crossed_a_word_boundary");
+                    }
+                    let r = if op.k == 0 { guarded(|| hd.0.update_val(a.get())) } else { guarded(|| hd.0.update_mut(a.get())) };
+                    r.map_err(|m| Violation::new("unexpected-panic", i, "update accepted (total length inside the algorithm's domain)", m, format!("{} update of {} bytes with {} bytes already counted", name, len, before)))?;
+                    hd.1.extend_from_slice(a.get());
+                    let mask: u128 = if dom == 61 { u64::MAX as u128 } else { u128::MAX };
+                    let got = hd.0.len();
+                    obs.pos((after & u64::MAX as u128) as u64);
+                    if got != (after & mask) {
+                        return Err(Violation::new("counter-invariant", i, format!("{:#x}", after & mask), format!("{:#x}", got), format!("{}: message length counter after update", name)));
+                    }
+                }
+                2 => {
+                    if hs.len() >= 4 {
+                        continue;
+                    }
+                    let n = (guarded(|| hs[h].0.fork()).map_err(|m| Violation::new("unexpected-panic", i, "clone", m, name))?, hs[h].1.clone(), hs[h].2);
+                    hs.push(n);
+                }
+                3 => {
+                    let hd = &mut hs[h];
+                    let got = guarded(|| hd.0.finalize_reset()).map_err(|m| Violation::new("unexpected-panic", i, "finalize_reset (total length inside the algorithm's domain)", m, format!("{} with {} bytes counted", name, hd.2 + hd.1.len() as u128)))?;
+                    obs.out(&got);
+                    let (p, log) = (hd.2, hd.1.clone());
+                    let want = guarded(|| {
+                        let mut o = make_l(name);
+                        o.set_len(p);
+                        o.update_mut(&log);
+                        o.finalize()
+                    })
+                    .map_err(|m| Violation::new("unexpected-panic", i, "one-call path", m, name))?;
+                    if got != want {
+                        return Err(Violation::bytes("digest-mismatch", i, &want, &got, format!("{}: fragmented history vs one call over the same {} bytes with the length counter preset to {:#x}", name, log.len(), p)));
+                    }
+                    // a reset context counts from zero again
+                    if hd.0.len() != 0 {
+                        return Err(Violation::new("counter-invariant", i, "0", format!("{:#x}", hd.0.len()), format!("{}: message length counter after finalize_reset", name)));
+                    }
+                    hd.1.clear();
+                    hd.2 = 0;
+                }
+                _ => {}
+            }
+        }
+        let n = t.ops.len();
+        for (obj, log, p) in hs.into_iter() {
+            let got = guarded(move || obj.finalize()).map_err(|m| Violation::new("unexpected-panic", n, "finalize (total length inside the algorithm's domain)", m, format!("{} with {} bytes counted", name, p + log.len() as u128)))?;
+            obs.out(&got);
+            let want = guarded(|| {
+                let mut o = make_l(name);
+                o.set_len(p);
+                o.update_mut(&log);
+                o.finalize()
+            })
+            .map_err(|m| Violation::new("unexpected-panic", n, "one-call path", m, name))?;
+            if got != want {
+                return Err(Violation::bytes("digest-mismatch", n, &want, &got, format!("{}: fragmented history vs one call over the same {} bytes with the length counter preset to {:#x}", name, log.len(), p)));
+            }
+            if p == 0 {
+                // after a reset the object must agree with the plain one-call digest
+                let plain = crate::scn::hashctx::oneshot(name, 0, &[], &log);
+                if plain != got {
+                    return Err(Violation::bytes("digest-mismatch", n, &plain, &got, format!("{}: digest after finalize_reset of a preset context differs from the one-call digest", name)));
+                }
+            }
+        }
+        Ok(())
+    }
+}
+
 // ------------------------------------------------------------------ misuse
 
 pub struct Misuse;
